@@ -67,6 +67,10 @@ func verifGo(f func()) {
 func verifJoin() { verifWG.Wait() }
 func verifFireTimer()
 func verifFSFaults(on bool)
+
+// verifPlantPersistentWriteFault: symbolically nothing (write faults are the model's choice per write); natively acts out a
+// run in which every write failed
+func verifPlantPersistentWriteFault(name string, held *os.File) *os.File
 func verifFileMode(name string) int
 func verifDirMode(name string) int
 func verifNameLess(a, b string) bool
